@@ -659,7 +659,8 @@ def impl_writer(hlines, mode, specs, channel="fd", hmode=None):
             except Exception as e:  # noqa
                 return {"log": cap.take(), "init": ["exc", c_exn(e)]}
             out = {"log": cap.take(), "init": ["ok", c_errs(h.validation_errors)], "adds": [],
-                   "_header_is_the_header": w.header() is h}
+                   "_header_is_the_header": w.header() is h,
+                   "_schemeless_at_start": not h.scheme()}
             for i, r in enumerate(recs):
                 try:
                     if i % 2:
